@@ -282,6 +282,26 @@ def run(chk):
         "keyword-only next to a required one": (lambda d: List([S("*"), S("uq"), List([S("uk"), d]), S("uz")]), "*, uq, uk={}, uz"),
         "annotated keyword-only": (lambda d: List([S("*"), E(S("annotate"), List([S("uk"), d]), S("int"))]), "*, uk: int={}"),
     }
+    # a default that needs statements: for every parameter kind they are hoisted in front of the definition (evaluated when the
+    # definition executes, like the Python default), and the default itself is the value that follows them
+    for sname, (mk, pytext) in shapes_ll.items():
+        for head in ("defn", "fn"):
+            d = Tok("d0", "SE")
+            form = E(S("defn"), S("uf"), mk(d), Tok("body", "E")) if head == "defn" else E(S("fn"), mk(d), Tok("body", "SE"))
+            out = sx.run_rule(form)
+            ok, det = False, None
+            if out.ok:
+                fds = [i for i, s_ in enumerate(out.result.stmts) if isinstance(s_, ast.FunctionDef)]
+                pre = [repr(s_) for s_ in out.result.stmts[:fds[0]] if isinstance(s_, AbsStmt)] if fds else None
+                node = out.result.stmts[fds[0]].args if fds else None
+                vals = [repr(x) for x in (list(node.defaults) + [k for k in node.kw_defaults if k is not None])] if node else None
+                ok = pre == ["S[d0]"] and vals == ["E[d0]"]
+                det = f"statements before the definition {pre}, defaults {vals}"
+            else:
+                det = repr(out.exc)[:200]
+            chk.case(("default-statements", sname, head))
+            chk.ob(f"defaults/a default that needs statements, {sname}/{head}: its statements precede the definition, its value is the default",
+                   ok, "structural", "proved", detail=det)
     for sname, (mk, pytext) in shapes_ll.items():
         for fname, fmk in falsy.items():
             for head in ("fn", "defn"):
